@@ -180,10 +180,14 @@ def _uf1(name):
 
     def g(it, x):
         if isinstance(x, XV):
-            return XV(SV(f(coerce(to_z(x.v), R))), x.nan)
+            return XV(g(it, x.v), x.nan)
         if not is_sym(x):
             return getattr(math, name[2:])(x)
-        return SV(f(coerce(to_z(x), R)))
+        t = z3.simplify(coerce(to_z(x), R))
+        if name in ("u_asin", "u_atan", "u_tan"):
+            from .values import AX
+            AX.add((name, t.get_id()), z3.Implies(t == 0, f(t) == 0))
+        return SV(f(t))
     return g
 
 
@@ -349,7 +353,7 @@ def make_numpy(it):
         xs = [y for x in xs for y in (x.parts if isinstance(x, Cat) else [x])]
         if all(isinstance(x, (Arr, Series)) for x in xs):
             return Cat([_arr(x) for x in xs])
-        raise EngineError("hstack of non-arrays")
+        raise EngineError(f"hstack of non-arrays: {[type(x).__name__ for x in xs]}")
 
     def errstate(it, **k):
         return None
@@ -942,6 +946,8 @@ def table_attr(it, t, name):
         return IndexVal(t)
     if name == "columns":
         return ColumnsView(t)
+    if name == "values":
+        return TableValues(t)
     if name == "empty":
         return SV(t.space.n == 0)
     if name == "get":
@@ -1048,9 +1054,61 @@ def index_attr(it, ix, name):
     return arr_attr(it, ix.arr(), name)
 
 
+class ColPos:
+    """df.columns.get_loc(name): the position of a column, kept by name"""
+
+    def __init__(self, table, name):
+        self.table = table
+        self.name = name
+
+
+class TableValues:
+    """df.values: the rows of the table as a 2-D array, indexed by (rows, column position)"""
+
+    def __init__(self, table):
+        self.table = table
+
+    def sym_len(self, it):
+        return SV(self.table.space.n)
+
+    def sym_getitem(self, it, key):
+        if not isinstance(key, tuple) or len(key) != 2:
+            raise EngineError("df.values[...] with a single index")
+        rows, col = key
+        if isinstance(col, (list, tuple)) and len(col) == 1:
+            col = col[0]            # a[rows, [c]] with a row selection: one-dimensional result (index broadcasting)
+        if not isinstance(col, ColPos) or col.table is not self.table:
+            raise EngineError("df.values[...] with a column position that was not obtained from df.columns.get_loc")
+        t = self.table
+        if col.name in t.optional:
+            if not it.ctx.expect(t.optional[col.name], tag=f"column {col.name} exists"):
+                raise PyRaise(KeyError(col.name))
+        if isinstance(rows, Series):
+            rows = rows.arr()
+        if isinstance(rows, slice) and rows == slice(None, None, None):
+            return Arr(t.space, t.cols[col.name], True)
+        if isinstance(rows, Arr) and _is_boolish(rows.e):
+            if rows.space is not t.space:
+                raise EngineError("df.values[mask, c] with a mask from another table")
+            return Arr(t.space, t.cols[col.name], _mask_and(rows.mask, truth_z(rows.e)))
+        raise EngineError(f"df.values[{type(rows).__name__}, c]")
+
+
 class ColumnsView:
     def __init__(self, table):
         self.table = table
+
+    @property
+    def get_loc(self):
+        def get_loc(it, name):
+            t = self.table
+            if name in t.optional:
+                if not it.ctx.expect(t.optional[name], tag=f"column {name} exists"):
+                    raise PyRaise(KeyError(name))
+            elif name not in t.cols:
+                raise PyRaise(KeyError(name))
+            return ColPos(t, name)
+        return Native(get_loc, name="columns.get_loc")
 
     def sym_contains(self, it, col):
         return self.table.has(it, col)
@@ -1142,6 +1200,8 @@ def cat_attr(it, c, name):
             n = part.sym_len(it) if hasattr(part, "sym_len") else len(part)
             tot = n if tot is None else it.binop("+", tot, n)
         return tot if tot is not None else 0
+    if name in ("ravel", "flatten"):
+        return Native(lambda it, **k: c, name=name)
     if name == "astype":
         return Native(lambda it, t=None, **k: Cat([it.getattr(part, "astype").fn(it, t) if hasattr(it.getattr(part, "astype"), "fn") else part
                                                    for part in c.parts]), name="astype")
